@@ -61,6 +61,9 @@ func main() {
 		r.Undecided(*prop+".internal:load", "", "cannot load %s: %v", *repo, err)
 	} else {
 		runRule(rf, c, r)
+		if !*oblsJSON && *goos == "" {
+			runCanaries(rf, r, *repo)
+		}
 	}
 	if *oblsJSON {
 		b, _ := json.Marshal(r.Obls)
